@@ -24,7 +24,24 @@ from .world import DEFAULT_KNOBS, Knobs, ShortReadStream, Violation, World, hkey
 READ_KINDS = ['single', 'bulk', 'bulk_all', 'has', 'meta', 'stream_seek', 'list', 'single_meta', 'bulk_stream_seek', 'bulk_stream_seek']
 
 
-def gen_policy(rng):
+FREEZE_KINDS = {
+    'packer': ['sql:COMMIT', 'sql:COMMIT', 'sql:COMMIT', 'sql:COMMIT', 'sql:COMMIT', 'sql:INSERT', 'sql:DELETE', 'f.write', 'f.flush', 'f.close', 'os.fsync', 'os.remove', 'os.unlink', 'open'],
+    'writer': ['f.write', 'f.close', 'os.fsync', 'os.rename', 'os.replace', 'open', 'stat'],
+    'reader': ['open', 'stat', 'f.read', 'f.seek', 'sql:SELECT'],
+    'backup': ['rsync', 'cmd.', 'sqlite.backup', 'open', 'f.read'],
+}
+
+
+def gen_freeze_policy(rng, roles=('packer', 'packer', 'writer', 'reader')):
+    role = rng.choice(list(roles))
+    kind = rng.choice(FREEZE_KINDS[role])
+    nth = rng.choice([1, 1, 1, 2, 2, 3, 4, 6, 9, 15, 40])
+    return ['freeze', role, kind, nth, rng.choice(['before', 'after']), rng.choice([0.0, 0.5, 0.9])]
+
+
+def gen_policy(rng, freeze_roles=('packer', 'packer', 'writer', 'reader')):
+    if rng.random() < 0.25:
+        return gen_freeze_policy(rng, freeze_roles)
     return rng.choice(
         [
             ['uniform'],
